@@ -108,6 +108,8 @@ def cand_env(scn):
 
 
 def cand_world_slice(scn):
+    if "world" not in scn:
+        return
     used = variables_used(scn)
     vs = scn["world"]["variables"]
     if used and len(used) < len(vs):
@@ -184,6 +186,8 @@ def _set_path(expr, path, value):
 
 
 def cand_exprs(scn):
+    if "world" not in scn:
+        return
     for vi, v in enumerate(scn["world"]["variables"]):
         fs = v.get("formulas", {})
         # drop a dated formula
